@@ -15,6 +15,9 @@
 (*   DoneOnError = FALSE   `continue` without wait.Done()         (F2)     *)
 (*   SurfaceError= FALSE   read error never reported              (F2)     *)
 (* All TRUE is the repaired protocol that /repo now implements.            *)
+(* Transient models a source that returns an error once and then works     *)
+(* again; NonSticky is the matching negative control (the first error is   *)
+(* forgotten when a later sample is read successfully).                    *)
 (***************************************************************************)
 EXTENDS Integers, Sequences, FiniteSets, TLC
 
@@ -23,7 +26,9 @@ CONSTANTS W,            \* number of workers (runtime.NumCPU())
           C,            \* chunks per sample
           FailAt,       \* stream position (chunk index) at which the source fails; 99 = never
           PartialErr,   \* TRUE: the failing Read also delivers the chunks before FailAt (n > 0, err # nil)
-          UseReadFull, UseLock, DoneOnError, SurfaceError
+          UseReadFull, UseLock, DoneOnError, SurfaceError,
+          Transient,    \* TRUE: the source fails exactly once at FailAt and then recovers
+          NonSticky     \* TRUE (negative control): a recorded read error is overwritten by the next successful sample
 
 None == 99
 Workers == 1..W
@@ -90,28 +95,31 @@ Recv(w) == /\ pc[w] = "recv" /\ chan # None
 Exit(w) == /\ pc[w] = "recv" /\ chan = None /\ closed
            /\ pc' = [pc EXCEPT ![w] = "exited"]
            /\ UNCHANGED <<mainpc, chan, sent, wg, closed, job, buf, filled, pos, holder, srcErr, failed, slots, writes, verdict, err>>
+Healed == Transient /\ failed
 Lock(w) == /\ pc[w] = "lock" /\ holder = None
            /\ holder' = w
            \* sampleSource.next: a recorded error is returned without touching the source again
-           /\ pc' = [pc EXCEPT ![w] = IF srcErr THEN "unlock" ELSE "read"]
+           /\ pc' = [pc EXCEPT ![w] = IF srcErr /\ ~NonSticky THEN "unlock" ELSE "read"]
            /\ UNCHANGED <<mainpc, chan, sent, wg, closed, job, buf, filled, pos, srcErr, failed, slots, writes, verdict, err>>
 AfterRead(w) == IF UseLock THEN "unlock" ELSE "round"
 \* one source.Read call
 ReadOK(w) ==
   /\ pc[w] = "read" /\ (UseLock => holder = w)
-  /\ pos < FailAt
+  /\ (pos < FailAt \/ Healed)
   /\ \E k \in 1..(C - filled[w]) :
-       /\ pos + k <= FailAt
+       /\ (Healed \/ pos + k <= FailAt)
+       /\ pos + k <= S * C + C
        /\ buf' = [buf EXCEPT ![w] = [c \in 1..C |-> IF c > filled[w] /\ c <= filled[w] + k THEN pos + (c - filled[w]) - 1 ELSE @[c]]]
        /\ pos' = pos + k
        /\ filled' = [filled EXCEPT ![w] = @ + k]
        /\ pc' = [pc EXCEPT ![w] = IF filled[w] + k = C \/ ~UseReadFull THEN AfterRead(w) ELSE "read"]
-  /\ UNCHANGED <<mainpc, chan, sent, wg, closed, job, holder, srcErr, failed, slots, writes, verdict, err>>
+       /\ srcErr' = IF NonSticky /\ filled[w] + k = C THEN FALSE ELSE srcErr
+  /\ UNCHANGED <<mainpc, chan, sent, wg, closed, job, holder, failed, slots, writes, verdict, err>>
 \* the failing Read: returns an error (possibly with the last chunks before FailAt already delivered
 \* by earlier ReadOK steps; PartialErr delivers nothing more here because chunks are the granularity)
 ReadFail(w) ==
   /\ pc[w] = "read" /\ (UseLock => holder = w)
-  /\ pos >= FailAt
+  /\ pos >= FailAt /\ ~Healed
   /\ srcErr' = TRUE /\ failed' = TRUE
   \* io.ReadFull: an error that arrives when the buffer is already full cannot happen (loop ended)
   /\ pc' = [pc EXCEPT ![w] = IF UseLock THEN "unlock" ELSE "errdone"]
@@ -141,7 +149,7 @@ Spec == Init /\ [][Next]_vars /\ WF_vars(MainStep) /\ \A w \in Workers : WF_vars
 
 (* ---------------- properties ---------------- *)
 TypeOK == /\ mainpc \in {"add", "send", "wait", "decide", "returned"}
-          /\ wg \in 0..S /\ sent \in 0..S /\ pos \in 0..(S * C)
+          /\ wg \in 0..S /\ sent \in 0..S /\ pos \in 0..(S * C + C)
           /\ \A w \in Workers : filled[w] \in 0..C
 \* C08/C10: what is judged is exactly the set of consecutive samples, each once (no stale / zero /
 \* interleaved buffer), whatever the schedule and the read sizes
